@@ -25,6 +25,26 @@ def wire_len(chunks):
     return 1 + (1 if n < 64 else 2 if n < 16384 else 4 if n < 2 ** 30 else 8) + n
 
 
+def buf_total(b):
+    """payload length of one buffer spec (a.b.c | hN | tT:a.b | yT)"""
+    if b[0] == 'y':
+        return 0
+    if b[0] == 'h':
+        return int(b[1:])
+    if b[0] == 't':
+        b = b.split(':', 1)[1]
+    return sum(int(x) for x in b.split('.'))
+
+
+def buf_wire(b):
+    n = buf_total(b)
+    vl = lambda v: 1 if v < 64 else 2 if v < 16384 else 4 if v < 2 ** 30 else 8
+    if b[0] == 'y':
+        return vl(int(b[1:]))
+    pre = vl(int(b[1:].split(':')[0])) if b[0] == 't' else 0
+    return pre + 1 + vl(n) + n
+
+
 def split_chunks(rng, n):
     if n == 0:
         return [0]
@@ -39,6 +59,7 @@ class P(Property):
     id = 'C17'
     gen_modules = ['gen_varint', 'gen_quinn']
     properties_v = 'Properties/C17.v'
+    extra_targets = ['Refute/C17.vo']
     model_targets = ['Model/QuinnAdapter.vo', 'Spec/AdapterSpec.vo']
     extract_v = 'Extract/ExtractC17.v'
     driver_ml = 'C17_driver.ml'
@@ -49,7 +70,7 @@ class P(Property):
             '0..20 earlier streams so that ids vary.  qw: 1..6 DATA frames with payloads 0..64 KiB quick / 0..256 KiB thorough in 1..4 '
             'chunks, peer stream window and connection window from 1 byte to 1 MiB (partial writes forced whenever the data exceeds the '
             'window), peer read sizes 1 byte..64 KiB, a second send_data attempted right after the first and/or at the first Pending of '
-            'poll_ready, send_id queried before/after send_data, while a write is pending, after completion, after finish; faults at '
+            'poll_ready, every kind of WriteBuf (DATA, HEADERS, stream type + DATA, stream type alone), raw bytes through poll_send afterwards, send_id queried before/after send_data, while a write is pending, after completion, after finish; faults at '
             'seeded offsets: peer STOP_SENDING(code), peer close(code), write after finish, local reset(code up to 2^64-1), local close(code). '
             'qr: peer writes 1..5 chunks; recv_id queried on a fresh stream, WHILE a read is pending, after that read was cancelled, after a '
             'deferred stop, after data, at the end; stop_sending issued while idle / while the read future owns the stream (once or twice); '
@@ -78,6 +99,12 @@ class P(Property):
         win = rng.choice(WINS)
         cwin = rng.choice(WINS + [1 << 22, 1 << 22])
         swin = 1 << 22
+        fk = fault_kind or rng.choice(['none'] * 5 + ['stop', 'close', 'afin', 'areset', 'lclose'])
+        if fk == 'stop':
+            # quinn-proto 0.11.17: a writer blocked on the stream window AND on a connection-level limit at the same
+            # moment is never told about STOP_SENDING (Streams::poll drops it from connection_blocked without a
+            # Writable event); keep the connection-level limits clear of the stream window in stop cases
+            cwin = max(cwin, 2 * win + 64)
         eff = min(win, cwin)
         budget = eff * rng.choice([3, 50, 300]) if eff < 4096 else (256 * 1024 if big else 64 * 1024)
         budget = max(8, min(budget, 256 * 1024 if big else 64 * 1024))
@@ -91,15 +118,28 @@ class P(Property):
             bufs.append(split_chunks(rng, n))
         if big and eff >= 1000 and rng.random() < 0.12:
             bufs[rng.randrange(nb)] = split_chunks(rng, 256 * 1024)
-        total = sum(wire_len(b) for b in bufs)
+        # other kinds of WriteBuf: HEADERS frame, stream type + DATA frame, stream type alone
+        specs = []
+        for b in bufs:
+            k = rng.choice('ddddddhty')
+            ty = rng.choice([0, 2, 0x41, 0x54, 16384, 2 ** 30, 2 ** 62 - 1])
+            if k == 'h':
+                specs.append('h%d' % sum(b))
+            elif k == 't':
+                specs.append('t%d:%s' % (ty, '.'.join(map(str, b))))
+            elif k == 'y':
+                specs.append('y%d' % ty)
+            else:
+                specs.append('.'.join(map(str, b)))
+        bufs = specs
+        total = sum(buf_wire(b) for b in bufs)
         # a small send window makes every step wait for an ACK (25 ms): only with little data
         sw = rng.choice([7, 100, 5000, 0, 0, 0])
-        if sw and total <= 30 * sw:
+        if sw and total <= 30 * sw and not (fk == 'stop' and sw < 2 * win + 64):
             swin = sw
         rd = rng.choice([0, 0, 0, 1, 7, 100, 1000, 65536])
         if rd and total // rd > 20000:
             rd = 0
-        fk = fault_kind or rng.choice(['none'] * 5 + ['stop', 'close', 'afin', 'areset', 'lclose'])
         code = rng.choice(CODES + [rng.getrandbits(62)])
         fault = 'none'
         if fk in ('stop', 'close'):
@@ -119,9 +159,12 @@ class P(Property):
             # which buffer is in flight when the fault hits depends on timing
             dbl = dblp = '-'
         ids = rng.choice([31, 31, rng.randint(0, 31) | 8])   # bit 3 (after the writes) is reached in every run
-        return ('qw role=%s kind=%s skip=%d win=%d cwin=%d swin=%d bufs=%s seed=%d ids=%d dbl=%s dblp=%s rd=%d fault=%s'
-                % (role, kind, skip, win, cwin, swin, ','.join('.'.join(map(str, b)) for b in bufs), rng.randint(0, 255), ids,
-                   dbl, dblp, rd, fault))
+        ps = '-'
+        if fault == 'none' and rng.random() < 0.3:
+            ps = str(rng.choice([0, 1, 100, rng.randint(0, max(1, min(budget, 20000)))]))
+        return ('qw role=%s kind=%s skip=%d win=%d cwin=%d swin=%d bufs=%s seed=%d ids=%d dbl=%s dblp=%s rd=%d ps=%s fault=%s'
+                % (role, kind, skip, win, cwin, swin, ','.join(bufs), rng.randint(0, 255), ids,
+                   dbl, dblp, rd, ps, fault))
 
     def gen_qr(self, rng, big, fault_kind=None):
         role = rng.choice('cs')
@@ -252,8 +295,7 @@ class P(Property):
             return case
         if fault_name(d, 'none') != 'none' or d.get('dbl', '-') != '-' or d.get('dblp', '-') != '-':
             return case
-        bufs = [[int(x) for x in b.split('.')] for b in d.get('bufs', '0').split(',')]
-        total = sum(wire_len(b) for b in bufs)
+        total = sum(buf_wire(b) for b in d.get('bufs', '0').split(','))
         return case if total > min(int(d.get('win', 1 << 20)), int(d.get('cwin', 1 << 22))) else None
 
     def shrink_candidates(self, case):
@@ -272,11 +314,15 @@ class P(Property):
                 emit(dict(d, bufs=','.join(bufs[1:]), dbl='-', dblp='-'))
             if fn == 'none':
                 for i, b in enumerate(bufs):
-                    n = sum(int(x) for x in b.split('.'))
-                    if '.' in b:
+                    n = buf_total(b)
+                    if not b[0].isdigit():
+                        emit(dict(d, bufs=','.join(bufs[:i] + [str(n)] + bufs[i + 1:])))
+                    elif '.' in b:
                         emit(dict(d, bufs=','.join(bufs[:i] + [str(n)] + bufs[i + 1:])))
                     elif n > 1:
                         emit(dict(d, bufs=','.join(bufs[:i] + [str(n // 2)] + bufs[i + 1:])))
+                if d.get('ps', '-') != '-':
+                    emit(dict(d, ps='-'))
             for k in ('dbl', 'dblp'):
                 if d.get(k, '-') != '-':
                     emit(dict(d, **{k: '-'}))
